@@ -252,6 +252,30 @@ def check_branch_end(case, acc):
     dynamic_check(body, model, c2, acc, 2)
 
 
+def check_loop_tail(case, acc):
+    body = chains.build_loop_tail(case['spec'])
+    src = ast.source(body)
+    c2 = dict(case, source=src)
+    model = parse_or_violation(src, c2, acc)
+    if model is None:
+        return
+    n = static_check(model, c2, acc)
+    if n >= 3:
+        acc.nontrivial += 1
+    acc.outcome(n)
+    dynamic_check(body, model, c2, acc, 2)
+
+
+def fam_loop_tail(arg):
+    acc = Acc('loop_tails')
+    for spec in arg:
+        acc.cases += 1
+        check_loop_tail({'spec': spec}, acc)
+    if arg:
+        acc.sample({'spec': arg[0], 'source': ast.source(chains.build_loop_tail(arg[0]))})
+    return acc.result()
+
+
 def fam_branch_end(arg):
     acc = Acc('branch_end')
     for spec in arg:
@@ -363,6 +387,7 @@ def families(tier):
     nmisc = len(misc_programs())
     be = chains.branch_end_specs()
     return [
+        Family('loop_tails', fam_loop_tail, split(chains.loop_tail_specs(), 16), "the outer loop's own continue / break (guarded, or bare at the end) before and / or after a COMPLETE nested loop of its body: 2 outer loops x 6 inner shapes x 2 exits x 4 placements x 2 scopes; static + dynamic (bound 2)", expected=len(chains.loop_tail_specs())),
         Family('branch_end', fam_branch_end, split(be, 32), 'an if chain (if / if-else / if-elif / if-elif-else) inside a loop (while, for, counter while) where every branch independently ends in nothing / break / continue / return; x 2 scopes x 3 surroundings; static + dynamic (bound 2)', expected=len(be)),
         Family('misc', fam_misc, [list(range(nmisc))], 'hand-written shapes: loops/ifs with empty and comment-only bodies (static + dynamic), include statements at top level, in functions, in loops and in if chains, an async function, user labels (schema validity)', expected=nmisc),
         chain_family(tier),
@@ -373,7 +398,7 @@ def families(tier):
     ]
 
 
-_CHECKS = {'misc': check_misc, 'pairs1': check_pair1, 'chain': check_chain, 'pairs': check_pair, 'branch_end': check_branch_end}
+_CHECKS = {'loop_tails': check_loop_tail, 'misc': check_misc, 'pairs1': check_pair1, 'chain': check_chain, 'pairs': check_pair, 'branch_end': check_branch_end}
 
 
 def replay(family, case):
